@@ -240,6 +240,8 @@ def match(seq, sub, *, rf='fwd',
                         return m
     if rf is not None and len(bwd_rfs) > 0:
         seq = seq.copy().rc()
+        if gaps is not None:
+            gaps = [i for i, nt in enumerate(str(seq)) if nt in gap if i >= start]
         for m in re.finditer(sub, str(seq)):
             if (i := m.start()) >= start:
                 # bisect(gaps, i) gives number of gaps before index i
